@@ -439,7 +439,21 @@ func genCfg(r *rng, p cp, names []string) *Cfg {
 
 var allBK = []int{-1, 0, 1, 2, 3}
 
+// generate: the case of a suite; for the geometry suites one layout case in twelve is drawn in a tiny or huge unit (every size and
+// spacing multiplied by the same power of two, which is exact): absolute tolerances and thresholds only show there
 func generate(suite string, seed uint64, i int) *Case {
+	c := generate0(suite, seed, i)
+	switch suite {
+	case "e2e", "c03", "c04", "c05", "c06":
+		ru := caseRng(suite+"#unit", seed, i)
+		if c != nil && c.Op == "layout" && c.Cfg != nil && c.Cfg.P4 != 3 && c.Cfg.P5 != 3 && ru.chance(1, 12) {
+			c.Cfg = scaleCfg(c.Cfg, []int{-40, -30, -30, 30}[ru.intn(4)])
+		}
+	}
+	return c
+}
+
+func generate0(suite string, seed uint64, i int) *Case {
 	r := caseRng(suite, seed, i)
 	id := fmt.Sprintf("%s:%d:%d", suite, seed, i)
 	g := gp{maxN: 9, maxM: 14, kind: -1, selfLoops: true, multi: true, comps: true, names: 1}
